@@ -601,6 +601,11 @@ def _norm1(e, ctx):
                         return w
             if a[0] in ('tuple', 'list') and not any(x[0] == 'star' for x in a[1]):
                 return ('const', len(a[1]))
+            # Cat(x.cyc for x in X): one bit per element of X (the protocol's strobes are one bit wide by their signatures)
+            if a[0] == 'call' and a[1] == ('name', 'Cat') and len(a[2]) == 1 and not a[3] and a[2][0][0] == 'gen' and len(a[2][0][3]) == 1 and \
+                    not a[2][0][3][0][2] and a[2][0][2][0] == 'attr' and a[2][0][2][1] == a[2][0][3][0][0] and \
+                    a[2][0][2][2] in ('cyc', 'stb', 'we', 'ack', 'err', 'rty', 'stall', 'lock', 'r_stb', 'w_stb', 'trg'):
+                return ('call', ('name', 'len'), (a[2][0][3][0][1],), ())
         if fn[0] == 'attr' and fn[2] == 'flip' and not args:
             inner = fn[1]
             if inner[0] == 'call' and inner[1][0] == 'attr' and inner[1][2] == 'flip' and not inner[2]:
